@@ -30,7 +30,7 @@ class DirHandler(BaseHandler):
     def prep_initfiles(self) -> None:
         """Initialize the list of files.  Ignore the files we're suppoed to."""
         self.files = []
-        dirfiles = self.vfs.listdir(self.getselector())
+        dirfiles = sorted(self.vfs.listdir(self.getselector()))
         ignorepatt = self.config.get("handlers.dir.DirHandler", "ignorepatt")
         for file in dirfiles:
             try:
